@@ -315,6 +315,12 @@ def run(ctx):
     nruns, nreq = run_client_stage(ctx, wd)
     ntraces += nruns
     total_steps += nreq
+    # stage 4: two deliveries of one request that OVERLAP (a retry sent while the first delivery is still being processed): the second
+    # runs inside the first at every statement boundary; the tables must be those of one delivery after the other (BatchDB)
+    from checks import _batchdb as B
+
+    st = B.interleave_stage(ctx, "C09", ["upd2", "grp2"], budget_s=15 if quick else 200, dup_only=("Commit", "InsertJob", "InsertGroup", "CreateUpdate"))
+    total_steps += st["scenarios"]
     ctx.cov.update(traces_validated_against_impl=ntraces, evaluations=total_steps, distinct_nontrivial=total_steps,
                    exhaustive=False,
                    rule="behaviours of BatchSubmit (graph walks / tlc -simulate) executed on the real aiohttp handlers one database transaction "
